@@ -13,6 +13,7 @@ import (
 	"errors"
 	"fmt"
 	"io"
+	"sort"
 	"strconv"
 	"strings"
 
@@ -47,12 +48,15 @@ func Sign(ctx context.Context, r io.Reader, cert *certloader.Certificate, hashTy
 	if toc == nil {
 		return nil, nil, errors.New("missing xar/toc element")
 	}
-	origSigSize := removeSigs(toc)
+	origSigSize, err := removeSigs(toc)
+	if err != nil {
+		return nil, nil, err
+	}
 	// reserve space for new signatures and insert elements into TOC
 	newSigSize := reserveSignatures(toc, hashType, cert.Certificates)
 	// verify and discard remaining input files
 	heap := &streamReaderAt{r: r}
-	if err := checkFiles(toc, heap); err != nil {
+	if err := checkFiles(toc, heap, origSigSize); err != nil {
 		return nil, nil, err
 	}
 	// move offsets of files in accordance with the change in signature size
@@ -88,19 +92,30 @@ func tocEtree(r io.Reader, compressedSize, uncompressedSize int64) (*etree.Docum
 	return doc, nil
 }
 
-// remove checksum and signatures and return the heap size they occupied
-func removeSigs(toc *etree.Element) (size int64) {
+// remove checksum and signatures and return the heap size they occupied. The areas must lie back to back at the start
+// of the heap, because that many bytes are replaced by the new signature area.
+func removeSigs(toc *etree.Element) (size int64, err error) {
+	type area struct{ offset, size int64 }
+	var areas []area
 	for _, key := range []string{"checksum", "signature", "x-signature"} {
 		for _, el := range toc.SelectElements(key) {
-			se := el.SelectElement("size")
-			if se != nil {
-				n, _ := strconv.ParseInt(se.Text(), 10, 64)
-				size += n
+			n, err1 := strconv.ParseInt(textOf(el.SelectElement("size")), 10, 64)
+			off, err2 := strconv.ParseInt(textOf(el.SelectElement("offset")), 10, 64)
+			if err1 != nil || err2 != nil || n < 0 || n > 1e6 || off < 0 {
+				return 0, fmt.Errorf("%s element has an invalid size or offset", key)
 			}
+			areas = append(areas, area{off, n})
 			el.Parent().RemoveChild(el)
 		}
 	}
-	return
+	sort.Slice(areas, func(i, j int) bool { return areas[i].offset < areas[j].offset })
+	for _, a := range areas {
+		if a.offset != size {
+			return 0, errors.New("checksum and signature areas are not contiguous at the start of the heap")
+		}
+		size += a.size
+	}
+	return size, nil
 }
 
 // add space for new signatures and return the heap space required for them
@@ -172,13 +187,16 @@ func newSigElement(key, style string, offset, size int64, certs []string) *etree
 }
 
 func adjustOffsets(doc *etree.Document, delta int64) {
-	for _, offsetEl := range doc.FindElements("//data/offset") {
-		offset, err := strconv.ParseInt(offsetEl.Text(), 10, 64)
-		if err != nil {
-			continue
+	// heap references: file data and extended attributes
+	for _, path := range []string{"//data/offset", "//ea/offset"} {
+		for _, offsetEl := range doc.FindElements(path) {
+			offset, err := strconv.ParseInt(offsetEl.Text(), 10, 64)
+			if err != nil {
+				continue
+			}
+			offset += delta
+			offsetEl.SetText(strconv.FormatInt(offset, 10))
 		}
-		offset += delta
-		offsetEl.SetText(strconv.FormatInt(offset, 10))
 	}
 }
 
